@@ -6,6 +6,8 @@ import props
 ID = "C10"
 INFO = ("YInput (TLA+): the Input contract as an abstract machine and its two refinements (string slice with a high-water mark, ring buffer of capacity K with NUL padding); "
         "MC_Input checks on every contract-respecting operation sequence over small texts that both refinements answer every operation as the abstract input does. "
+        "Gen_Input: the abstract input's answers to all 30 trait operations at every offset of every text <= 3 (quick) / 4 (thorough) over 14 symbols are replayed on the real "
+        "StrInput and BufferedInput (difference from the specification on both alike = drift; difference between the two = lead, followed up by parsing documents that embed the text). "
         "Every pool text is parsed by the real code through StrInput, BufferedInput and contract-asserting inputs of capacity 8/16/64/128; pairs that differ in any event, span or error, "
         "and a 1% sample of identical ones, are judged by Trace_Rel (YRel!SameRun) in TLC.",
         "Byte-identical recordings satisfy SameRun trivially and are only sampled into TLC. The contract-asserting inputs panic when the scanner breaks a precondition (counted as a difference).",
@@ -34,4 +36,26 @@ def run(ck):
             r = recs[rej[0] - 1]
             ck.violation("backend:%s:%s" % (json.dumps(r["t"]), r["be"]), "%s differs from the string back-end: %s — input %r" % (r["be"], rej[1], r["t"][:100]), r)
     for x in s["samples"]:
+        ck.sample(x)
+    # method level: the abstract input's answers to every trait operation at every offset of every small text, replayed on
+    # the real StrInput and BufferedInput; a difference between the two is followed up with documents embedding the text
+    g = props.tlc_cached(ck, "Gen_Input", "Gen_Input" if ck.tier == "thorough" else "Gen_Input_quick", ["YInput.tla", "YChars.tla"], workers=8, keep_out=True)
+    if not g["ok"]:
+        raise ToolError("Gen_Input did not complete: %s" % g["tail"][-800:])
+    ops, rel = ck.wd("ops.ndjson"), ck.wd("ops_rel.ndjson")
+    so = vh_json(["c10-ops", "--in", g["out"], "--out", ops, "--rel", rel])
+    ck.traces += so["records"]
+    ck.evaluations += so["ops"]
+    ck.drift += so["drift"]
+    ck.drift_samples += so["drift_samples"][:max(0, 5 - len(ck.drift_samples))]
+    ck.extra["input_operations_replayed"] = so["ops"]
+    ck.extra["method_level_differences"] = {"leads": so["leads"], "shown_by_a_document": so["confirmed"], "not_observable_through_the_parser": so["unconfirmed"]}
+    if so["confirmed"]:
+        jr = props.judge(ck, "Trace_Rel", rel, name="C10_ops_rel")
+        rr = read_ndjson(rel)
+        for rej in jr.rejects[:100]:
+            r = rr[rej[0] - 1]
+            ck.violation("backend:%s:%s" % (json.dumps(r["t"]), r["be"]), "%s differs from the string back-end: %s — input %r (found from a difference of the input operations %s on %r at offset %d)" % (
+                r["be"], rej[1], r["t"][:100], ", ".join(r["lead"]["ops"]) or "look-ahead helpers", r["lead"]["text"], r["lead"]["off"]), r)
+    for x in so["samples"][:2]:
         ck.sample(x)
